@@ -10,10 +10,12 @@ import (
 	"io"
 	"math"
 	"os"
+	"path/filepath"
 	"regexp"
 	"runtime/debug"
 	"strconv"
 	"strings"
+	"sync"
 
 	"github.com/tdewolff/canvas"
 	"github.com/tdewolff/canvas/renderers/pdf"
@@ -370,7 +372,42 @@ func (s styleSpec) apply(ctx *canvas.Context) {
 
 // draw is one Context call: DrawPath(path) under a style, or (img > 0) DrawImage of test image
 // img-1 at resolution imageRes[res].
-type draw struct{ path, style, view, cs, img, res int }
+// txt > 0: DrawText of text variant txt-1 (the text itself is not compared - its glyphs are a matter of
+// C18 - but it is part of the program: what its graphics state leaves behind shows in the next path).
+type draw struct{ path, style, view, cs, img, res, txt int }
+
+var textNames = []string{"\"Hi\" DejaVuSerif 12pt black", "\"Hi\" DejaVuSerif 12pt black, faux bold (Bold of a family with the Regular style only)",
+	"\"Hi\" DejaVuSerif 12pt blue, faux bold", "\"Hi\" DejaVuSerif 12pt black, faux italic"}
+
+var (
+	textOnce   sync.Once
+	textFamily *canvas.FontFamily
+)
+
+func mkText(v int) *canvas.Text {
+	textOnce.Do(func() {
+		dir := os.Getenv("REPO")
+		if dir == "" {
+			dir = "/repo"
+		}
+		textFamily = canvas.NewFontFamily("dejavu-serif")
+		if err := textFamily.LoadFontFile(filepath.Join(dir, "resources", "DejaVuSerif.ttf"), canvas.FontRegular); err != nil {
+			panic("c12: cannot load font: " + err.Error())
+		}
+	})
+	var face *canvas.FontFace
+	switch v {
+	case 0:
+		face = textFamily.Face(12, canvas.Black, canvas.FontRegular)
+	case 1:
+		face = textFamily.Face(12, canvas.Black, canvas.FontBold)
+	case 2:
+		face = textFamily.Face(12, colBlue, canvas.FontBold)
+	default:
+		face = textFamily.Face(12, canvas.Black, canvas.FontItalic)
+	}
+	return canvas.NewTextLine(face, "Hi", canvas.Left)
+}
 
 // Test images, 3 columns x 2 rows, row 0 is the top row. Premultiplied RGBA as image.RGBA stores it.
 var imagePixels = [][6]color.RGBA{
@@ -410,6 +447,10 @@ func (p program) String() string {
 	var sb strings.Builder
 	sb.WriteString("c := canvas.New(40,24); ctx := canvas.NewContext(c)")
 	for k, d := range p {
+		if d.txt > 0 {
+			fmt.Fprintf(&sb, "; ctx.SetCoordSystem(%s); ctx.SetView(%s); ctx.DrawText(%g,%g, %s)", coordNames[d.cs], views[d.view].name, positions[k][0], positions[k][1], textNames[d.txt-1])
+			continue
+		}
 		if d.img > 0 {
 			fmt.Fprintf(&sb, "; ctx.SetCoordSystem(%s); ctx.SetView(%s); ctx.DrawImage(%g,%g, %s, canvas.DPMM(%g))",
 				coordNames[d.cs], views[d.view].name, positions[k][0], positions[k][1], imageNames[d.img-1], imageRes[d.res])
@@ -427,6 +468,10 @@ func (p program) canvas() *canvas.Canvas {
 	for k, d := range p {
 		ctx.SetCoordSystem(coordSystems[d.cs])
 		ctx.SetView(views[d.view].m)
+		if d.txt > 0 {
+			ctx.DrawText(positions[k][0], positions[k][1], mkText(d.txt-1))
+			continue
+		}
 		if d.img > 0 {
 			ctx.DrawImage(positions[k][0], positions[k][1], mkImage(d.img-1), canvas.DPMM(imageRes[d.res]))
 			continue
@@ -1288,12 +1333,28 @@ func checkProgram(r *fw.R, p program, bes []backend, raster bool) {
 	ops := rec.Record(c).Ops
 	r.States++
 	r.Transitions += int64(len(p))
+	nText := 0
+	for _, d := range p {
+		if d.txt > 0 {
+			nText++
+		}
+	}
+	if nText > 0 {
+		// text is part of the program, not of the comparison (the interpreters skip text objects)
+		var kept []rec.Op
+		for _, op := range ops {
+			if op.Kind != "text" {
+				kept = append(kept, op)
+			}
+		}
+		ops = kept
+	}
 	exp, bad := expectedList(ops)
 	if bad != "" {
 		r.Outcome("skipped:" + bad)
 		return
 	}
-	if len(ops) != len(p) {
+	if len(ops) != len(p)-nText {
 		r.Outcome("layers-differ-from-draws")
 	}
 	nontrivial := false
@@ -1426,6 +1487,19 @@ func allFamilies(tier string) []fw.Family {
 	fs = append(fs, fw.Family{Name: "N depth 1: stroke widths 99.9999996, 9.99999996, 0.999999996 x zig-zag x 2 views x coordinate system", N: oracle.Prod(radN...),
 		Check: func(i int64, r *fw.R) { checkProgram(r, progN(i), main3, true) },
 		Desc:  func(i int64) string { return progN(i).String() }})
+
+	// T: path, text, path through the PDF variants: what a text object leaves in the graphics state
+	// (text rendering mode, stroke colour and line width of faux bold, fill colour) for the next path
+	tStyles := []int{5, 7, 0, 22, 15, 23}
+	radT := []int{len(tStyles), len(textNames), len(tStyles), 2}
+	progT := func(i int64) program {
+		g := oracle.Digits(i, radT...)
+		return program{{path: 2, style: tStyles[g[0]], view: g[3]}, {txt: g[1] + 1, view: g[3]}, {path: 1, style: tStyles[g[2]], view: g[3]}}
+	}
+	pdfs := []backend{backends[1], backends[3]}
+	fs = append(fs, fw.Family{Name: "T depth 3: path, text, path: style x {regular, faux bold black, faux bold blue, faux italic} x style x 2 views, PDF and PDF uncompressed", N: oracle.Prod(radT...),
+		Check: func(i int64, r *fw.R) { checkProgram(r, progT(i), pdfs, false) },
+		Desc:  func(i int64) string { return progT(i).String() }})
 
 	// G: gradients with more stops
 	fs = append(fs, fw.Family{Name: "G gradient stop lists x {SVG, PDF}", N: int64(len(gradientCases) * 2),
